@@ -135,6 +135,54 @@ def set_summaries():
             outs.append((s, Bool(had)))
         return outs
 
+    @reg(r'^IndexSet::<u16>::(get_index|first|last)$')
+    def is_get_index(ex, st, fn, argv):
+        fs = deref(ex, st, argv[0])
+        which = fn.split('::')[-1]
+        outs = []
+        if isinstance(fs, StackSet):
+            if which == 'get_index':
+                i = z3.Extract(15, 0, argv[1].bv)
+                inb = z3.And(z3.ULT(argv[1].bv, z3.ZeroExt(48, fs.len)))
+            elif which == 'first':
+                i, inb = b16(0), fs.len != 0
+            else:
+                i, inb = fs.len - 1, fs.len != 0
+            for (s, c, ok) in ex.fork_on(st, inb, (argv, i)):
+                q = deref(ex, s, c[0][0])
+                outs.append((s, mk_option(Ref(Cell(Int(z3.Select(q.stack, c[1]), 16, False), 'idx-elem'))) if ok else mk_option()))
+            return outs
+        # unordered model: any member (over-approximation of the order; counterexamples are replayed natively)
+        if which == 'get_index' and not z3.is_true(z3.simplify(argv[1].bv == 0)):
+            raise Unsupported('IndexSet::get_index(i != 0) on the unordered set model')
+        empty = fs.present == z3.K(BV16, z3.BoolVal(False))
+        for (s, c, e) in ex.fork_on(st, empty, argv):
+            q = deref(ex, s, c[0])
+            if e:
+                outs.append((s, mk_option()))
+            else:
+                k = s.fresh_bv('peeked', 16)
+                s.pc.append(z3.Select(q.present, k))
+                if getattr(q, 'facts', None) is not None:
+                    s.pc += q.facts(k)
+                outs.append((s, mk_option(Ref(Cell(Int(k, 16, False), 'idx-elem')))))
+        return outs
+
+    @reg(r'^IndexSet::<u16>::len$')
+    def is_len(ex, st, fn, argv):
+        fs = deref(ex, st, argv[0])
+        if isinstance(fs, StackSet):
+            return [(st, Int(z3.ZeroExt(48, fs.len), 64, False))]
+        raise Unsupported('IndexSet::len on the unordered set model')
+
+    @reg(r'^IndexSet::<u16>::clear$')
+    def is_clear(ex, st, fn, argv):
+        fs = deref(ex, st, argv[0])
+        fs.present = z3.K(BV16, z3.BoolVal(False))
+        if isinstance(fs, StackSet):
+            fs.len = b16(0)
+        return [(st, Unit())]
+
     @reg(r'^IndexSet::<u16>::contains(::<u16>)?$')
     def is_contains(ex, st, fn, argv):
         fs = deref(ex, st, argv[0])
@@ -259,7 +307,7 @@ fn run_ops(max: u16, ops: &[Op]) -> Option<String> {
 '''
 
 
-def rust_test(maxv, prefix_opens, ops):
+def rust_test(maxv, prefix_opens, ops, ntail=1):
     """prefix_opens = number of leading open(None) calls (history constructor), ops = list of op tuples"""
     def r(op):
         if op[0] == 'some':
@@ -275,7 +323,12 @@ fn verif_replay_c10() {{
     let mut ops: Vec<Op> = Vec::new();
     for _ in 0..{prefix_opens}u32 {{ ops.push(Op::OpenNone); }}
     ops.extend_from_slice(&[{', '.join(r(o) for o in ops)}]);
-    let res = std::panic::catch_unwind(|| run_ops({maxv}, &ops));
+    // the set-up closes may be done in any order (it decides which freed id is reused first): try both directions
+    let mut alt = ops.clone();
+    let closes: Vec<usize> = (0..alt.len().saturating_sub({ntail})).filter(|i| matches!(alt[*i], Op::Close(_))).collect();
+    let vals: Vec<Op> = closes.iter().rev().map(|i| alt[*i]).collect();
+    for (k, i) in closes.iter().enumerate() {{ alt[*i] = vals[k]; }}
+    let res = std::panic::catch_unwind(|| run_ops({maxv}, &ops).or_else(|| run_ops({maxv}, &alt)));
     match res {{
         Ok(None) => println!("VERIF-REPLAY-OK"),
         Ok(Some(msg)) => println!("VERIF-REPLAY-VIOLATION {{}}", msg),
@@ -315,7 +368,7 @@ def body(ctx):
             except (Unsupported, Inconclusive) as e:
                 ctx.inconclusive.append(f"{phase.__name__}[{tag}]: {type(e).__name__}: {e}")
     for (desc, maxv, prefix, ops, what) in reports:
-        ctx.report(None, what, desc, rust_test(maxv, prefix, ops), inject_into='src/io_loop/mod.rs', role_from_output=True)
+        ctx.report(None, what, desc, rust_test(maxv, prefix, ops, desc.get('n_tail', 1)), inject_into='src/io_loop/mod.rs', role_from_output=True)
 
 
 def get_fns(prog):
@@ -509,30 +562,76 @@ def run_inductive(ctx, prog, U, tag, reports):
                 if opk == 'close':
                     frame_ok = z3.And(frame_ok, z3.Implies(z3.Select(pre[0], idv), z3.Select(fp, idv)))
                 full = z3.And(claim, frame_ok, *(inv_at(sp, fp, n, ksk) + inv_glob(n)))
-            m = ctx.decide(f"ind[{tag}].{opk}:{kind}", pc, full, group=f"inductive[{tag}]: op postcondition + invariant preserved from any valid table",
+            spec = z3.BoolVal(False) if kind.startswith('panic') else z3.And(claim, frame_ok)
+            m = ctx.decide(f"ind[{tag}].{opk}:{kind}.spec", pc, spec, group=f"inductive[{tag}]: op postcondition from any valid table",
                            sample={'op': opk, 'outcome': kind, 'pre': 'arbitrary table satisfying the invariant'})
-            if m is not None and (opk, kind) not in seen and len(seen) < 5:
-                seen.add((opk, kind))
-                rep = cti_to_history(ctx, s1.pc, m, pre, maxv, cnt_w, opk, idv, inv_at)
-                if rep is None:
-                    ctx.inconclusive.append(f"inductive CTI for {opk}:{kind} could not be turned into a history")
-                else:
-                    mv, prefix, ops = rep
-                    reports.append(({'channel_max': mv, 'prefix_open_none': prefix, 'ops': ops[-12:], 'n_ops': len(ops), 'engine_outcome': kind, 'mir_profile': tag, 'from': 'inductive CTI'},
-                                    mv, prefix, ops, f"channel_max={mv}: after {prefix}×open(None) and {len(ops)-1} set-up ops, {ops[-1]} gives {kind}"))
+            if m is not None:
+                if (opk, kind) not in seen and len(seen) < 5:
+                    seen.add((opk, kind))
+                    add_cti_report(ctx, reports, s1.pc, m, pre, maxv, cnt_w, [(opk, idv)], kind, tag)
+                continue
+            if kind.startswith('panic'):
+                continue
+            m = ctx.decide(f"ind[{tag}].{opk}:{kind}.inv", pc, full, group=f"inductive[{tag}]: representation invariant preserved (or no violation within the look-ahead)")
+            if m is None:
+                continue
+            # invariant not preserved: is a real violation reachable from the broken post-state? (look-ahead, k-induction style)
+            ctx.obligations[-1]['status'] = 'pending-lookahead'
+            found = lookahead(ctx, ex, F, s1, maxv, [(opk, idv)], depth=2, pre_facts=lambda k_: inv_at(pre[0], pre[1], pre[2], k_))
+            if found is None:
+                ctx.obligations[-1]['status'] = 'inconclusive'
+                ctx.inconclusive.append(f"inductive[{tag}] {opk}:{kind}: invariant not preserved and no violation found within look-ahead 2")
+            else:
+                ctx.obligations[-1]['status'] = 'violated'
+                (s_bad, m2, ops_sym, kind2) = found
+                if ('la', opk, kind2) not in seen and len(seen) < 5:
+                    seen.add(('la', opk, kind2))
+                    add_cti_report(ctx, reports, s_bad.pc, m2, pre, maxv, cnt_w, ops_sym, kind2, tag)
     ctx.extra[f'inductive_paths_{tag}'] = npaths
     ctx.twin(f'ind[{tag}].twin: pre-state has no open channel', st0.pc, z3.Not(z3.Select(S.present, idv)))
 
 
-def cti_to_history(ctx, pc, m, pre, maxv, cnt_w, opk, idv, inv_at):
+def lookahead(ctx, ex, F, s1, maxv, ops_sym, depth, pre_facts):
+    """explore up to `depth` further operations from a post-state that broke the invariant; -> first spec violation"""
+    front = [(s1, list(ops_sym))]
+    for d in range(depth):
+        nxt = []
+        idv = z3.BitVec(f'la.id{d}', 16)
+        for (st, ops) in front:
+            for opk in ('none', 'some', 'close'):
+                s0 = st.fork()
+                s0.pc += pre_facts(idv)
+                for (s2, claim, kind) in apply_op(ctx, ex, F, s0, opk, idv, maxv, skolem=True):
+                    if kind.startswith('bound'):
+                        continue
+                    ops2 = ops + [(opk, idv)]
+                    bad = z3.BoolVal(True) if kind.startswith('panic') else z3.Not(claim)
+                    kf = s2.roots.get('kfree')
+                    r, m, _ = ctx.solve(list(s2.pc) + (pre_facts(kf) if kf is not None else []) + [bad])
+                    if r == 'sat':
+                        return (s2, m, ops2, kind)
+                    if not kind.startswith('panic'):
+                        nxt.append((s2, ops2))
+        front = nxt[:40]
+    return None
+
+
+def add_cti_report(ctx, reports, pc, m, pre, maxv, cnt_w, ops_sym, kind, tag):
+    rep = cti_to_history(ctx, pc, m, pre, maxv, cnt_w, ops_sym)
+    mv, prefix, ops = rep
+    reports.append(({'channel_max': mv, 'prefix_open_none': prefix, 'ops': ops[-12:], 'n_ops': len(ops), 'n_tail': len(ops_sym), 'engine_outcome': kind, 'mir_profile': tag, 'from': 'inductive CTI'},
+                    mv, prefix, ops, f"channel_max={mv}: after {prefix}x open(None) and {len(ops)-len(ops_sym)} set-up ops, {ops[-len(ops_sym):]} gives {kind}"))
+
+
+def cti_to_history(ctx, pc, m, pre, maxv, cnt_w, ops_sym):
     """history constructor: reach (S, F, next) from the fresh table, then perform the failing op.
     The quantifier-free CTI only fixes the table at a few ids; complete it to a table that satisfies the full
     invariant: every id below `next` that the model leaves unconstrained is taken to be open."""
     sp, fp, nxt = pre
     mv = m.eval(maxv, model_completion=True).as_long()
     n = m.eval(nxt, model_completion=True).as_long()
-    sel_s = [z3.is_true(m.eval(z3.Select(sp, b16(i)), model_completion=False)) for i in range(0, mv + 1)]
-    sel_f = [z3.is_true(m.eval(z3.Select(fp, b16(i)), model_completion=False)) for i in range(0, mv + 1)]
+    sel_s = [z3.is_true(m.eval(z3.Select(sp, b16(i)), model_completion=True)) for i in range(0, mv + 1)]
+    sel_f = [z3.is_true(m.eval(z3.Select(fp, b16(i)), model_completion=True)) and not sel_s[i] for i in range(0, mv + 1)]
     ops = []
     prefix = min(n - 1, mv)
     for i in range(max(n, 1), mv + 1):
@@ -541,10 +640,11 @@ def cti_to_history(ctx, pc, m, pre, maxv, cnt_w, opk, idv, inv_at):
     for i in range(1, mv + 1):
         if sel_f[i] and not sel_s[i]:
             ops.append(('close', i))
-    if opk in ('some', 'close'):
-        ops.append((opk, m.eval(idv, model_completion=True).as_long()))
-    else:
-        ops.append((opk,))
+    for (opk, idv) in ops_sym:
+        if opk in ('some', 'close'):
+            ops.append((opk, m.eval(idv, model_completion=True).as_long()))
+        else:
+            ops.append((opk,))
     return mv, prefix, ops
 
 
